@@ -196,6 +196,13 @@ def run(ctx):
         cases.append(make_case(rng, 3, nr3, nt3, rng.choice([2, 3]), base)); fam["3D"] = len(cases) - 1
         cases.append(make_case(rng, 2, nr3, nt3, 2, base)); fam["2Dfor3D"] = len(cases) - 1
         cases.append(make_case(rng, 1, 17, 8, 2, base)); fam["1Dmid"] = len(cases) - 1
+        # an unloaded first step (nothing for Newton to iterate on) before the loaded one
+        idle = copy.deepcopy(base)
+        idle["times"] = [0.0, 1.0, 2.0]
+        idle["prof"] = [base["prof"][0], base["prof"][0], base["prof"][1]]
+        idle["pressure"] = [0.0, 0.0, base["pressure"][1]]
+        idle["dtop"] = [0.0, 0.0, base["dtop"][1]]
+        cases.append(make_case(rng, rng.choice([1, 2, 3]), 5, 8, 2, idle)); fam["idle"] = len(cases) - 1
         ni = make_case(rng, rng.choice([1, 2, 3]), 5, 8, 2, base)
         cases.append(ni); fam["indexed"] = len(cases) - 1
         ni = copy.deepcopy(ni); ni["init"] = "noindex"
@@ -208,7 +215,7 @@ def run(ctx):
         if r.get("outcome") != "ok":
             findings.append((c, "the tube solve failed: %s %s" % (r.get("outcome"), r.get("msg", "")[:160])))
     for fam in fams:
-        idx = fam["1D"] + fam["2D"] + [fam["3D"], fam["2Dfor3D"], fam["1Dmid"], fam["indexed"], fam["noindex"]]
+        idx = fam["1D"] + fam["2D"] + [fam["3D"], fam["2Dfor3D"], fam["1Dmid"], fam["indexed"], fam["noindex"], fam["idle"]]
         if any(res[i].get("outcome") != "ok" for i in idx):
             continue
         E = cases[idx[0]]["material"]["E"]
@@ -230,9 +237,13 @@ def run(ctx):
         if abs(Nfe - N) > 2e-3 * (abs(N) + scale * area(cases[i]) * 1e-2):
             findings.append((cases[i], "1D axial force %.8g differs from the closed form %.8g" % (Nfe, N)))
         for i in idx:
-            K = uv(res[i]["stiffness"][-1])
-            if abs(K * cases[i]["h"] / area(cases[i]) - E) > 1e-7 * E:
-                findings.append((cases[i], "axial stiffness * h / area = %.10g, Young's modulus %.10g" % (K * cases[i]["h"] / area(cases[i]), E)))
+            for step in range(1, len(cases[i]["times"])):
+                K = uv(res[i]["stiffness"][step])
+                if abs(K * cases[i]["h"] / area(cases[i]) - E) > 1e-7 * E:
+                    findings.append((cases[i], "step %d: axial stiffness * h / area = %.10g, Young's modulus %.10g"
+                                     % (step, K * cases[i]["h"] / area(cases[i]), E)))
+        if abs(uv(res[fam["idle"]]["force"][1])) > 1e-9 * E:
+            findings.append((cases[fam["idle"]], "an unloaded step reports the axial force %g" % uv(res[fam["idle"]]["force"][1])))
         # a first state created without a time index (direct callers) solves the same problem
         a, b = fam["indexed"], fam["noindex"]
         if res[a]["force"][-1] != res[b]["force"][-1] or res[a]["quad"]["stress_zz"][-1] != res[b]["quad"]["stress_zz"][-1]:
